@@ -64,7 +64,7 @@ impl Monitor for C13 {
         ]
     }
     fn rule(&self) -> String {
-        "case = one generated history under any of 8 persist policies with rejected / no-op call shapes inserted at random points and whenever the write cursor is within 48 bytes of the end of the WAL file, in particular when the file is full to its last byte (8 shapes, on existing and non-existing queues); around each such call: (half of the time) persist(Flush) to drain buffers, snapshot + per-file content hash of the directory, the call, (if drained) a trailing persist(Flush), then: the syscall trace of the call itself is EMPTY (no write, no fsync, no open, no seek) and the trailing flush writes nothing, snapshot, disk_used_bytes and directory content unchanged, wal_bytes_written == 0; under OnDelay(2 ms) a quarter of the no-ops are preceded by a 3 ms sleep and followed by an effective append, which must flush (the no-op must not consume the persist that was due); with probability 1/3 an immediate restart must also reproduce the pre-call snapshot; evaluation = one such call; distinct_nontrivial = distinct (shape, policy, pre-call state digest)".into()
+        "case = one generated history under any of 8 persist policies with rejected / no-op call shapes inserted at random points and whenever the write cursor is within 48 bytes of the end of the WAL file, in particular when the file is full to its last byte (8 shapes, on existing and non-existing queues); around each such call: (half of the time) persist(Flush) to drain buffers, snapshot + per-file content hash of the directory, the call, (if drained) a trailing persist(Flush), then: the syscall trace of the call itself is EMPTY (no write, no fsync, no open, no seek) and the trailing flush writes nothing, snapshot, memory_used_bytes, memory_allocated_bytes, disk_used_bytes and directory content unchanged, wal_bytes_written == 0; under OnDelay(2 ms) a quarter of the no-ops are preceded by a 3 ms sleep and followed by an effective append, which must flush (the no-op must not consume the persist that was due); with probability 1/3 an immediate restart must also reproduce the pre-call snapshot; evaluation = one such call; distinct_nontrivial = distinct (shape, policy, pre-call state digest)".into()
     }
     fn run_case(&self, ctx: &Ctx, case: u64, acc: &mut Acc) {
         let parts = ctx.case_seed(case);
@@ -129,6 +129,7 @@ impl Monitor for C13 {
             };
             let disk_before = d.sut.log().resource_usage().disk_used_bytes;
             let mem_before = d.sut.log().resource_usage().memory_used_bytes;
+            let alloc_before = d.sut.log().resource_usage().memory_allocated_bytes;
             let summary_before = serde_json::to_string(&d.sut.log().summary().queues).unwrap_or_default();
             let img_before = Image::from_dir(&dir).digest();
             let Some(shape) = expected_shape(&bad, &d.gen.st) else {
@@ -216,6 +217,14 @@ impl Monitor for C13 {
             }
             if d.sut.log().resource_usage().memory_used_bytes != mem_before {
                 acc.violation(format!("C13/memory_used_bytes-changed/{}", shape), case, detail("memory_used_bytes changed", json!({"before": mem_before, "after": d.sut.log().resource_usage().memory_used_bytes})));
+                return;
+            }
+            if d.sut.log().resource_usage().memory_allocated_bytes != alloc_before {
+                acc.violation(
+                    format!("C13/memory_allocated_bytes-changed/{}", shape),
+                    case,
+                    detail("memory_allocated_bytes changed", json!({"before": alloc_before, "after": d.sut.log().resource_usage().memory_allocated_bytes})),
+                );
                 return;
             }
             if d.sut.log().resource_usage().disk_used_bytes != disk_before {
